@@ -175,6 +175,57 @@ def run(ctx):
             ctx.ok('R-TFLAGCOL', '%s:%s' % (fq, key[0]), w, desc)
         ctx.count('decoder/encoder functions typed')
     ctx.floor('radix-typed operations', ninst, 30)
+    # ---- R-REFFMT: every strptime format of the reference-date parser has nested fields (no minutes without hours, no seconds without minutes)
+    from .. import lints
+    ctx.rule('R-REFFMT', 'reference-date formats: date-time fields nested Y m d H M S without gaps')
+    cm = src.mod('coordutil.py')
+    pr = cm.func('_parse_ref_date')
+    fmts = [n for n in walk_expr(pr) if isinstance(n, ast.Constant) and isinstance(n.value, str) and '%Y' in n.value]
+    for n in fmts:
+        gap = lints.strptime_field_gaps(n.value)
+        if gap:
+            ctx.violation(Finding('R-REFFMT', 'coordutil.py', '_parse_ref_date', api.stmt_of(n), 'format %r has a later field without %s: that part of the reference date is read into the wrong unit' % (n.value, gap)),
+                          oid=n.value)
+        else:
+            ctx.ok('R-REFFMT', n.value, 'src/PseudoNetCDF/coordutil.py _parse_ref_date', 'fields nested')
+    ctx.floor('reference-date formats', len(fmts), 10)
+    # ---- R-TSTEPSTR: '%06d' % HHMMSS has a *minimum* width: hours/minutes/seconds must be sliced from the right
+    ctx.rule('R-TSTEPSTR', "slices of a '%06d'-formatted HHMMSS string are anchored at the right end")
+    nts = 0
+    for rp_, fq in (('core/_files.py', 'PseudoNetCDFFile.getTimes'), ('conventions/ioapi/_ioapi.py', 'add_time_variable')):
+        m_ = src.mod(rp_)
+        f_ = m_.func(fq)
+        strs = {}
+        for st in iter_stmts(f_.body):
+            if isinstance(st, ast.Assign) and isinstance(st.targets[0], ast.Name) and isinstance(st.value, ast.BinOp) and isinstance(st.value.op, ast.Mod) \
+                    and const_str(st.value.left) == '%06d':
+                strs[st.targets[0].id] = st
+        for nm, dst in strs.items():
+            sl = [x for x in walk_expr(f_) if isinstance(x, ast.Subscript) and isinstance(x.value, ast.Name) and x.value.id == nm and isinstance(x.slice, ast.Slice)]
+            bad = []
+            for x in sl:
+                for bound in (x.slice.lower, x.slice.upper):
+                    if bound is not None and not (isinstance(bound, ast.UnaryOp) and isinstance(bound.op, ast.USub)):
+                        bad.append(x)
+            nts += 1
+            w_ = 'src/PseudoNetCDF/%s %s' % (rp_, fq)
+            if bad:
+                ctx.violation(Finding('R-TSTEPSTR', rp_, fq, api.stmt_of(bad[0]), "%s = '%%06d' %% <HHMMSS> is at least six characters wide; %s is anchored at the left, so a step of 100 hours or "
+                                      "more is split at the wrong positions" % (nm, norm(bad[0]))), oid='%s:%s' % (fq, nm))
+            else:
+                ctx.ok('R-TSTEPSTR', '%s:%s' % (fq, nm), w_, 'slices %s anchored at the right end' % [norm(x.slice) for x in sl])
+    ctx.floor("'%06d' time strings", nts, 2)
+    # ---- R-PARAMDEAD on the inverse mappings
+    ctx.rule('R-PARAMDEAD', 'a resolved optional parameter is used afterwards')
+    for name in ('time2idx', 'date2num', 'time2t'):
+        f6 = fm.func('PseudoNetCDFFile.' + name)
+        dead = lints.param_dead_stores(f6)
+        if dead:
+            for st in dead:
+                ctx.violation(Finding('R-PARAMDEAD', FILES, 'PseudoNetCDFFile.' + name, st, 'parameter %s is resolved here but never read afterwards: the conversion below uses the '
+                                      "units of another variable" % norm(st.targets[0])))
+        else:
+            ctx.ok('R-PARAMDEAD', name, 'src/PseudoNetCDF/%s PseudoNetCDFFile.%s' % (FILES, name), 'no dead re-assignment of a parameter')
     # ---- R-TZDROP
     n = check_tzdrop(ctx, fm, 'PseudoNetCDFFile.date2num')
     ctx.floor('tz drop sites', n, 1)
